@@ -43,7 +43,7 @@ from elementpath.tree_builders import get_node_tree
 from elementpath.xpath_tokens import XPathToken, ValueToken, XPathFunction, XPathArray
 from elementpath.serialization import get_serialization_params, serialize_to_xml, \
     serialize_to_json
-from elementpath.xpath_context import XPathContext, XPathSchemaContext
+from elementpath.xpath_context import XPathContext, XPathSchemaContext, ABSENT_FOCUS
 from elementpath.regex import translate_pattern, RegexError
 
 from ._xpath30_operators import XPath30Parser
@@ -165,6 +165,7 @@ class _InlineFunction(XPathFunction):
 
         context = copy(context)
         if context is not None:
+            context.item = ABSENT_FOCUS  # the focus is absent in the body of an inline function
             if self.variables is not None:
                 context.variables = self.variables.copy()  # the closure, not the caller's scope
             else:
